@@ -20,6 +20,27 @@ def _is_defn(e):
     return e.get("k") == "Mem" and e.get("rec") in ("defn_s", "defn") and e.get("f") in ("flags", "exps", "nargs")
 
 
+
+def _known(f, b, xid):
+    """what the branch facts at block b say about the entry in variable xid: (not predefined, undefined, allocated here)"""
+    not_predef = undefined = fresh = False
+    if xid is None:
+        return (False, False, False)
+    for c, t, B in cfgq.guards(f, b.id):
+        for a_, t_ in implied_atoms(c, t):
+            e, tt = normalize_cond(a_, t_)
+            e = strip(e)
+            if e.get("k") == "Bin" and e.get("op") == "&" and any(y.get("k") == "Mem" and y.get("f") == "flags" and strip(y.get("b") or {}).get("id") == xid for y in walk(e)):
+                if facts.any_in_macro(e, "DEF_IS_PREDEF") and not tt:
+                    not_predef = True
+                if facts.any_in_macro(e, "DEF_IS_UNDEFINED") and tt:
+                    undefined = True
+    for b2, i2, n2 in f.nodes():
+        if n2.get("k") == "Asg" and n2.get("op") == "=" and strip(n2["L"]).get("k") == "Ref" and strip(n2["L"]).get("id") == xid \
+                and any(y.get("k") == "Call" and "alloc" in (y.get("fn") or "").lower() for y in walk(n2["R"])) and f.dominates(b2.id, b.id):
+            fresh = True
+    return (not_predef, undefined, fresh)
+
 def check(run, prog, tier):
     run.rule("C02-r", "preprocessor: a compilation leaves the predefined macros as they are - DEF_IS_UNDEFINED is set, and exps/nargs/flags of an existing entry are overwritten, only where the entry was tested not to be DEF_IS_PREDEF (or tested to be undefined, which no predefine ever is, or allocated right there); DEF_IS_PREDEF is never masked off. Otherwise `#undef X` + `#define X ..` in one file changes X for every file compiled afterwards", 5)
     nst = 0
@@ -37,21 +58,19 @@ def check(run, prog, tier):
             xid = x.get("id") if x.get("k") == "Ref" else None
             nst += 1
             run.saw(f)
-            not_predef = undefined = False
-            for c, t, B in cfgq.guards(f, b.id):
-                for a_, t_ in implied_atoms(c, t):
-                    e, tt = normalize_cond(a_, t_)
-                    e = strip(e)
-                    if e.get("k") == "Bin" and e.get("op") == "&" and any(y.get("k") == "Mem" and y.get("f") == "flags" and strip(y.get("b") or {}).get("id") == xid for y in walk(e)):
-                        if facts.any_in_macro(e, "DEF_IS_PREDEF") and not tt:
-                            not_predef = True
-                        if facts.any_in_macro(e, "DEF_IS_UNDEFINED") and tt:
-                            undefined = True
-            fresh = False
-            for b2, i2, n2 in f.nodes():
-                if n2.get("k") == "Asg" and n2.get("op") == "=" and strip(n2["L"]).get("k") == "Ref" and strip(n2["L"]).get("id") == xid and xid is not None \
-                        and any(y.get("k") == "Call" and "alloc" in (y.get("fn") or "").lower() for y in walk(n2["R"])) and (f.dominates(b2.id, b.id)):
-                    fresh = True
+            not_predef, undefined, fresh = _known(f, b, xid)
+            if not (not_predef or undefined or fresh) and x.get("d") == "param" and f.static:
+                # a file-local helper that is handed the entry: what every caller knows about it at the call
+                pis = [p_.get("pi") for p_ in f.params or [] if p_.get("id") == xid]
+                sites = [(g, b2, n2) for g in prog.functions() for b2, i2, n2 in g.calls(f.name)]
+                ks = []
+                for g, b2, n2 in sites:
+                    a = strip(n2["args"][pis[0]]) if pis and len(n2.get("args", [])) > pis[0] else {}
+                    ks.append(_known(g, b2, a.get("id")) if a.get("k") == "Ref" and a.get("id") is not None else (False, False, False))
+                if ks:
+                    not_predef, undefined, fresh = all(k_[0] for k_ in ks), all(k_[1] for k_ in ks), all(k_[2] for k_ in ks)
+                    if not (not_predef or undefined or fresh) and all(any(k_) for k_ in ks):
+                        not_predef = True       # each caller knows one of the three
             op = n.get("op")
             if op == "&=":
                 ok = not facts.any_in_macro(n["R"], "DEF_IS_PREDEF")
